@@ -180,13 +180,15 @@ def run(ctx):
                        "replayed on real Pipeline objects built through supervisor.NewSpec; traces = those replays + seeded random "
                        "configurations executed on the real code and validated by TLC against the contract; non-trivial = distinct "
                        "(configuration, result vector) with a jump, an END node or before/after flows, and distinct rejected configurations")
-    ctx.assumptions += ["filters are the test-only scripted kinds C02K12/C02K1/C02K123 (declared results r1,r2 / r1 / r1,r2,r3)",
+    ctx.assumptions += ["filters are the test-only scripted kinds C02K12/C02K1/C02K123/C02KC/C02K0 (declared results r1,r2 / r1 / r1,r2,r3 / R1,r1 / none); "
+                        "result names are compared exactly (case, prefixes, the empty name are different names)",
                         "an END node that carries an alias may or may not be a jump target (both readings admitted by the contract)",
                         "no alias equals END; before/after pipelines share the main pipeline's filter definitions",
                         "GlobalFilter: before/after pipelines are given with an explicit non-empty flow"]
     fixed = any(f.get("id") == FINDING_END_ALIAS for f in ctx.findings.get("fixed", []))
     q = ctx.quick
-    ctx.cov["exhaustive_families"] = ("flow: all main flows of <= 3 nodes over the node variants of PipelineFlow_Gen!%s; endalias, defs, bma "
+    ctx.cov["exhaustive_families"] = ("flow: all main flows of <= 3 nodes over the node variants of PipelineFlow_Gen!%s; keys: all flows of <= 2 nodes over 4 kinds x jumpIf "
+                                      "keys {\"\", R1, r, r1, r11, r2, r3} (one or two per map) x targets; endalias, defs, bma "
                                       "likewise (see tlc_runs); each x all result vectors over {\"\", r1, r2}" % ("QFlowNodes" if q else "FlowNodes (+ <= 4 nodes over Flow4Nodes)"))
     jobs = []          # (label, callable) - TLC generation jobs, run concurrently (each is its own JVM)
     if ctx.phase("mbt"):
@@ -202,6 +204,8 @@ def run(ctx):
                             nodes_b="BmaSideQ" if q else "BmaSide", nodes_a="BmaSideQ" if q else "BmaSide",
                             max_b=1, max_a=1, fixed=fixed), 4 if q else 6),
         ]
+        # which jumpIf keys validation accepts: names placed everywhere relative to the declared results of the kind
+        fams.insert(1, ("keys", fam_cfg("KeyDefs", "KeyNodes", 2, fixed=fixed, results='{"", "r1", "R1", "r2"}'), 4))
         if not q:
             fams.append(("flow4", fam_cfg("FlowDefs", "Flow4Nodes", 4, fixed=fixed), 6))
         for label, cfg, wk in fams:
@@ -250,7 +254,7 @@ def run(ctx):
 
 def _sim_gen(ctx, fixed, nb, seed):
     cfg = fam_cfg("SimDefs", "SimNodes", 6, has_b="{TRUE, FALSE}", has_a="{TRUE, FALSE}", nodes_b="SimNodes", nodes_a="SimNodes",
-                  max_b=3, max_a=3, only_valid=True, fixed=fixed, inv=INV_NOREF, results='{"", "r1", "r2", "r3"}')
+                  max_b=3, max_a=3, only_valid=True, fixed=fixed, inv=INV_NOREF, results='{"", "r1", "r2", "r3", "R1"}')
     behs = ctx.tlc_simulate("PipelineFlow_Gen", cfg, num=nb, depth=80, timeout=1200, seed=seed)
     recs = [b[-1] for b in behs if b]
     if len(recs) < nb // 2:
